@@ -8,8 +8,9 @@ _A = ['op_literal', 'op_drop', 'op_drop_n', 'op_dup', 'op_loop', 'op_jump_if_fal
 UNIT = dict(
   name='ops',
   properties=['C01', 'C16', 'C06', 'C07', 'C04', 'C03', 'C13'],
-  shared=[],
+  shared=['isa.rs'],
   items=[
+    ('laythe_vm/src/byte_code.rs', ['struct Label', 'enum CaptureIndex', 'enum SymbolicByteCode']),
     ('laythe_core/src/object/mod.rs', ['enum ObjectKind']),
     ('laythe_core/src/utils.rs', ['fn is_falsey']),
     ('laythe_vm/src/vm/mod.rs', ['enum ExecutionSignal']),
@@ -20,6 +21,11 @@ UNIT = dict(
     ('laythe_vm/src/vm/ops.rs', [('impl Vm', _A)]),
   ],
   rewrites=[
+    ('R7f', 'struct Label'), ('R11', 'struct Label', dict(drop=['Debug'], add=['Structural'])),
+    ('R11', 'enum CaptureIndex', dict(drop=['Debug'], add=['Structural'])),
+    ('R11', 'enum SymbolicByteCode', dict(drop=['Debug', 'Default'], add=['Structural'])),
+    ('R11', 'enum SymbolicByteCode', dict(pat='  #[default]\n', rep='', count=1)),
+    ('R11', 'enum SymbolicByteCode', dict(pat='  #[allow(dead_code)]\n', rep='', count=1)),
     ('R11', 'enum ObjectKind', dict(drop=['Debug', 'Hash'], add=['Structural'])),
     ('R11', 'enum ExecutionSignal', dict(drop=['Debug'], add=['Structural'])),
     ('R7', 'enum ExecutionSignal', dict(pat='enum ExecutionSignal', rep='pub enum ExecutionSignal', count=1)),
